@@ -5,6 +5,7 @@ partition with boundaries {0} u W u {N}, labelled 0..K-1 in temporal order (all 
 empty); with return_good=True the call must not fail and every labelled run must be exactly one of
 those segments, numbered consecutively in temporal order."""
 import itertools
+import os
 
 import numpy as np
 
@@ -129,6 +130,47 @@ def thread_check(ctx, seed):
     return thread_probe(ctx, 'get_cycle_vector (%d samples)' % tcase['n'], calls, 4 if tcase['n'] > 100000 else 12, tcase)
 
 
+def flag_digests(seed):
+    """Labellings of a fixed set of seeded phases (both modes): what an interpreter started with other flags must reproduce."""
+    from emd import cycles as C
+    r = np.random.default_rng(seed)
+    out = []
+    for k in range(12):
+        p = gens.synthetic_phase(r, ncycles=int(r.integers(1, 9)), noise=float(gens.pick(r, [0, .1])), reversals=bool(k % 3 == 0))
+        for g in (False, True):
+            out.append(digest(np.asarray(C.get_cycle_vector(p.copy(), return_good=g))))
+    return out
+
+
+def interpreter_flags_probe(ctx, seed):
+    """How the interpreter was started is not the caller's input: the same calls under `python -O` and `python -OO` (asserts and
+    docstrings stripped) must import and give the same labellings."""
+    import json
+    import subprocess
+    import sys
+    from ..harness import VERIF, REPO
+    here = flag_digests(seed)
+    for flag in ('-O', '-OO'):
+        env = dict(os.environ, EMD_REPO=REPO, PYTHONPATH=VERIF)
+        case = {'kind': 'flags', 'flag': flag, 'seed': int(seed)}
+        ctx.case(digest('flags', flag, seed), True)
+        try:
+            p = subprocess.run([sys.executable, flag, '-W', 'ignore', '-m', 'emdverif.props.C12', str(seed)], capture_output=True, text=True, timeout=300, env=env, cwd=VERIF)
+        except subprocess.TimeoutExpired:
+            ctx.count('flags_probe_timeouts')
+            continue
+        lines = [l for l in p.stdout.splitlines() if l.startswith('DIGESTS ')]
+        ctx.count('interpreter_flag_runs')
+        if p.returncode != 0 or not lines:
+            ctx.violation('fails-under-interpreter-flag:' + flag, 'under `python %s` the library cannot be imported / cycle detection fails: %s'
+                          % (flag, (p.stderr or p.stdout).strip().splitlines()[-1][:200] if (p.stderr or p.stdout).strip() else 'no output'), case)
+            continue
+        if json.loads(lines[-1][8:]) != here:
+            ctx.violation('differs-under-interpreter-flag:' + flag, 'cycle detection gives different labellings under `python %s`' % flag, case)
+        else:
+            ctx.count('labellings_compared_under_interpreter_flags', len(here))
+
+
 def reload_probe(ctx, rng):
     """Process history: a reference to the routine taken before emd.cycles is reloaded (importlib.reload, what an interactive
     session or an auto-reloading notebook does) keeps working, with its documented defaults."""
@@ -160,6 +202,8 @@ def run_shard(ctx):
     rng = ctx.rng
     if ctx.shard % 4 == 1:
         thread_check(ctx, int(rng.integers(1 << 30)))
+    if ctx.shard % 8 == 0:
+        interpreter_flags_probe(ctx, int(rng.integers(1 << 30)))
     if ctx.shard % 4 == 3:
         reload_probe(ctx, rng)
         from emd import cycles as C          # (the reloaded module from here on)
@@ -241,6 +285,8 @@ def finalize(agg, tier):
 
 def replay(ctx, case):
     from emd import cycles as C
+    if case.get('kind') == 'flags':
+        return interpreter_flags_probe(ctx, case['seed'])
     if case.get('kind') == 'reload':
         return reload_probe(ctx, np.random.default_rng(0))
     if case.get('kind') == 'threads':
@@ -265,3 +311,12 @@ def replay(ctx, case):
                 single = np.asarray(C.get_cycle_vector(P[:, j].copy(), return_good=rg, phase_step=case['phase_step'])).reshape(-1)
                 if not np.array_equal(out[:, j], single):
                     ctx.violation('multicolumn', 'column %d differs from single-column result' % j, case)
+
+
+if __name__ == '__main__':
+    # the fresh-interpreter side of interpreter_flags_probe
+    import json
+    import sys
+    from emdverif.harness import bootstrap
+    bootstrap()
+    print('DIGESTS ' + json.dumps(flag_digests(int(sys.argv[1]))))
